@@ -7,12 +7,13 @@ from comp.seq import gen
 
 RULE = ("seeded op scripts over 3 container variables per case: vector / small_vector<N=2,4> (push const&/&&, emplace, pop, "
         "resize with and without value, clear, front/back/[], ==, copy/move construction, copy/move assignment, swap), "
+        "the three container variables of a script live on three different instances of a stateful allocator (swap / move / copy between them); "
         "dyn_array, stack, frg::list, two intrusive_lists over 6 objects (push_front/back, insert before front/middle/back/end, "
-        "erase by role, pop, clear, splice); element types uint64_t, copy/move-observable (vh::TV + self pointer), move-only; "
+        "erase by role, pop, clear, splice); element types uint64_t, copy/move-observable (vh::TV + self pointer), move-only, and for vector (the only container with ==) double incl. +-0.0/NaN/+-inf and a padded POD compared by key only; "
         "resize targets at 0, size+-1, cap-1, cap, cap+1, N-1, N, N+1, 2N+2; non-trivial = distinct script of >= 8 ops")
 TRUSTED = ["extraction: ExtrOcamlBasic only; OCaml 4.13.1; comp/seq/driver.ml",
            "correspondence harness comp/seq/harness.cpp (g++ -fsanitize=address,undefined, -fno-access-control)",
-           "oracle: std::vector/std::deque/std::list references, own-storage check of the element type (raw-read, "
+           "oracle: std::vector/std::deque/std::list references (== against std::vector of the same element type), per-instance allocator accounting (bad-free: block released into an instance that never handed it out), own-storage check of the element type (raw-read, "
            "relocated-bytewise), lifetime/allocation registries in lib/vharness.hpp, ASan",
            "modelled, not verified: placement new / destructor calls as slot updates; raw pointers as naturals"]
 ASSUMPTIONS = ["sizeof(T) * capacity does not overflow size_t (sizes are naturals in the model)",
